@@ -505,3 +505,16 @@ V("c06-eq-null-shortcut", "C06", "rich/style.py", "            return NotImpleme
 V("c04-emoji-fallback-folded", "C04", "rich/_emoji_replace.py", "        return get_emoji(emoji_name.lower(), emoji_code)\n", '        emoji_name = emoji_name.lower()\n        return get_emoji(emoji_name, f":{emoji_name}:")\n', "R4.13")
 V("c04-benign-emoji-group0", "C04", "rich/_emoji_replace.py", "        return get_emoji(emoji_name.lower(), emoji_code)\n", "        return get_emoji(emoji_name.lower(), match.group(0))\n", None)
 V("c20-pop-guard-inverted", "C20", "rich/theme.py", "        if len(self._entries) == 1:\n            raise ThemeStackError", "        if len(self._entries) != 1:\n            raise ThemeStackError", "R20.4")
+V("c07-add-column-no-backfill", "C07", "rich/table.py", '        for _ in self.rows:\n            column._cells.append(Text(""))\n        self.columns.append(column)\n', "        self.columns.append(column)\n", "R7.20")
+V("c07-benign-add-column-extend", "C07", "rich/table.py", '        for _ in self.rows:\n            column._cells.append(Text(""))\n        self.columns.append(column)\n', '        column._cells.extend(Text("") for _ in self.rows)\n        self.columns.append(column)\n', None)
+V("c07-pad-after-collapse-skipped", "C07", "rich/table.py", "        if (table_width < max_width and self.expand) or (\n", "        elif (table_width < max_width and self.expand) or (\n", "R7.19")
+V("c14-columns-count-min", "C14", "rich/columns.py", "            column_count = max(1, (max_width) // (self.width + width_padding))\n", "            column_count = min(len(renderables), max_width // (self.width + width_padding))\n", "R14.10")
+V("c18-distance-isqrt", "C18", "rich/palette.py", "from math import sqrt\n", "from math import isqrt as sqrt\n", "R18.8")
+V("c17-strip-all-newlines", "C17", "rich/syntax.py", '        text.remove_suffix("\\n")\n', '        text.plain = text.plain.rstrip("\\n")\n', "R17.9")
+V("c17-filename-abspath", "C17", "rich/traceback.py", "                        filename = os.path.join(_IMPORT_CWD, filename)\n", "                        filename = os.path.abspath(filename)\n", "R17.8")
+V("c16-node-table", "C16", "rich/pretty.py", '                return Node(value_repr="...")\n', '                return _SEEN.setdefault(obj_id, Node(value_repr="..."))\n', "R16.14")
+V("c15-capture-truthy", "C15", "rich/console.py", "        if self._result is None:\n            raise CaptureError(", "        if not self._result:\n            raise CaptureError(", "R15.12")
+V("c12-reset-keeps-finish-time", "C12", "rich/progress.py", "        self._progress.clear()\n        self.finished_time = None\n", "        self._progress.clear()\n", "R12.3")
+V("c10-stderr-proxy-wraps-stdout", "C10", "rich/progress.py", "                sys.stderr = FileProxy(self.console, sys.stderr)\n", "                sys.stderr = FileProxy(self.console, sys.stdout)\n", "R10.15")
+V("c10-print-width-unclamped", "C10", "rich/console.py", "                width=min(width, self.width) if width else None,\n", "                width=width if width else None,\n", "R10.16")
+V("c04-tag-cache-by-name", "C04", "rich/markup.py", [("    _Tag = Tag\n\n    def pop_style", "    _Tag = Tag\n    tag_cache = {}\n\n    def pop_style"), ("                normalized_tag = _Tag(normalize(tag.name), tag.parameters)\n", "                normalized_tag = tag_cache.get(tag.name)\n                if normalized_tag is None:\n                    normalized_tag = _Tag(normalize(tag.name), tag.parameters)\n                    tag_cache[tag.name] = normalized_tag\n")], None, "R4.12")
